@@ -13,8 +13,10 @@ func post_parseV1(data string, res0 *V1, res1 error) bool { return res1 != nil |
 //@ verify Parse post=post_Parse props=C20,C09
 func post_Parse(data string, res0 License, res1 error) bool { return res1 != nil || res0 != nil }
 
-//@ verify (*V1).Contract post=post_V1_Contract props=C20
+func pre_V1(l *V1) bool { return l != nil }
+
+//@ verify (*V1).Contract pre=pre_V1 post=post_V1_Contract props=C20
 func post_V1_Contract(l *V1, res0 uint32) bool { return res0 == l.User }
 
-//@ verify (*V1).Signature post=post_V1_Signature props=C20
+//@ verify (*V1).Signature pre=pre_V1 post=post_V1_Signature props=C20
 func post_V1_Signature(l *V1, res0 uint32) bool { return res0 == l.Sign }
